@@ -17,7 +17,7 @@ package ledger
 //@   modifies nUpdateVolumes, lastUpdates, lastPCV
 //@   ensures nUpdateVolumes == old(nUpdateVolumes) + 1 && lastUpdates == accountVolumes && lastPCV == r
 //@   ensures err == nil ==> r != nil && wfPCV(r)
-//@   ensures err == nil ==> forall i int :: {accountVolumes[i]} 0 <= i && i < len(accountVolumes) ==> pcvHas(r, accountVolumes[i].Account, accountVolumes[i].Asset)
+//@   ensures err == nil ==> forall acc string, x string :: {pcvHas(r, acc, x)} {countUpd(accountVolumes, acc, x)} countUpd(accountVolumes, acc, x) > 0 ==> pcvHas(r, acc, x)
 
 //@ assumed func (store *Store) InsertTransaction(ctx context.Context, tx *ledger.Transaction) (err error)
 //@   requires tx != nil
@@ -37,10 +37,12 @@ package ledger
 // ---- transactions.go: CommitTransaction (C01 C02 C03 C35) -------------------------------------------
 
 //@ func (store *Store) CommitTransaction(ctx context.Context, tx *ledger.Transaction) (err error)
-//@   property C03 C35
+//@   property C01 C02 C03 C35
 //@   requires tx != nil && amountsNonNil(tx.Postings)
 //@   modifies tx, nUpdateVolumes, lastUpdates, lastPCV, nInsertTransaction, nInsertMoves, lastMoves
 //@   ensures nUpdateVolumes == old(nUpdateVolumes) + 1
+//@   ensures badUpd(lastUpdates, old(tx.Postings)) == 0
+//@   ensures forall i int :: {old(tx.Postings)[i]} 0 <= i && i < len(old(tx.Postings)) ==> countUpd(lastUpdates, old(tx.Postings)[i].Source, old(tx.Postings)[i].Asset) > 0 && countUpd(lastUpdates, old(tx.Postings)[i].Destination, old(tx.Postings)[i].Asset) > 0
 //@   ensures err == nil ==> nInsertTransaction == old(nInsertTransaction) + 1
 //@   ensures err == nil ==> tx.Postings == old(tx.Postings)
 //@   ensures err == nil ==> forall acc string, x string :: {pcvHas(tx.PostCommitVolumes, acc, x)} {pcvHas(lastPCV, acc, x)} pcvHas(tx.PostCommitVolumes, acc, x) == pcvHas(lastPCV, acc, x)
@@ -48,3 +50,19 @@ package ledger
 //@   ensures err == nil ==> (nInsertMoves == old(nInsertMoves) + 1) == (store.ledger.Features["MOVES_HISTORY"] == "ON")
 //@   ensures err == nil && store.ledger.Features["MOVES_HISTORY"] != "ON" ==> nInsertMoves == old(nInsertMoves)
 //@   ensures err == nil && nInsertMoves == old(nInsertMoves) + 1 ==> len(lastMoves) == 2 * len(tx.Postings)
+//@   loop 1:
+//@     index k
+//@     mention pcvHas(lastPCV, posting.Source, posting.Asset)
+//@     mention pcvHas(lastPCV, posting.Destination, posting.Asset)
+//@     mention pcvHas(postCommitVolumes, posting.Source, posting.Asset)
+//@     mention pcvHas(postCommitVolumes, posting.Destination, posting.Asset)
+//@     invariant postCommitVolumes != nil && wfPCV(postCommitVolumes) && len(moves) == 2 * k
+//@     invariant len(postings) == len(tx.Postings) && forall i int :: {postings[i]} 0 <= i && i < len(postings) ==> postings[i] == tx.Postings[len(postings) - 1 - i]
+//@     invariant forall i int :: {postings[i]} 0 <= i && i < len(postings) ==> postings[i].Amount != nil && pcvHas(lastPCV, postings[i].Source, postings[i].Asset) && pcvHas(lastPCV, postings[i].Destination, postings[i].Asset)
+//@     invariant forall acc string, x string :: {pcvHas(postCommitVolumes, acc, x)} {pcvHas(lastPCV, acc, x)} pcvHas(postCommitVolumes, acc, x) == pcvHas(lastPCV, acc, x)
+//@     invariant forall j int :: {moves[2 * j]} 0 <= j && j < k ==> moves[2 * j] != nil && !moves[2 * j].IsSource && moves[2 * j].Account == postings[j].Destination && moves[2 * j].Asset == postings[j].Asset && moves[2 * j].Amount == postings[j].Amount && moves[2 * j].PostCommitVolumes != nil
+//@     invariant forall j int :: {moves[2 * j]} 0 <= j && j < k ==> val(moves[2 * j].PostCommitVolumes.Input) == pcvIn(lastPCV, postings[j].Destination, postings[j].Asset) - credits_upto(postings, j, postings[j].Destination, postings[j].Asset) && val(moves[2 * j].PostCommitVolumes.Output) == pcvOut(lastPCV, postings[j].Destination, postings[j].Asset) - debits_upto(postings, j, postings[j].Destination, postings[j].Asset)
+//@     invariant forall j int :: {moves[2 * j + 1]} 0 <= j && j < k ==> moves[2 * j + 1] != nil && moves[2 * j + 1].IsSource && moves[2 * j + 1].Account == postings[j].Source && moves[2 * j + 1].Asset == postings[j].Asset && moves[2 * j + 1].Amount == postings[j].Amount && moves[2 * j + 1].PostCommitVolumes != nil
+//@     invariant forall j int :: {moves[2 * j + 1]} 0 <= j && j < k ==> val(moves[2 * j + 1].PostCommitVolumes.Input) == pcvIn(lastPCV, postings[j].Source, postings[j].Asset) - credits_upto(postings, j + 1, postings[j].Source, postings[j].Asset) && val(moves[2 * j + 1].PostCommitVolumes.Output) == pcvOut(lastPCV, postings[j].Source, postings[j].Asset) - debits_upto(postings, j, postings[j].Source, postings[j].Asset)
+//@     invariant forall acc string, x string :: {pcvIn(postCommitVolumes, acc, x)} {pcvIn(lastPCV, acc, x)} pcvHas(lastPCV, acc, x) ==> pcvIn(postCommitVolumes, acc, x) == pcvIn(lastPCV, acc, x) - credits_upto(postings, k, acc, x)
+//@     invariant forall acc string, x string :: {pcvOut(postCommitVolumes, acc, x)} {pcvOut(lastPCV, acc, x)} pcvHas(lastPCV, acc, x) ==> pcvOut(postCommitVolumes, acc, x) == pcvOut(lastPCV, acc, x) - debits_upto(postings, k, acc, x)
